@@ -142,8 +142,20 @@ func (s *sg) argStr() {
 
 var namePool = []string{"host", "cpu", "value", "a", "b", "dc", "sp ace", "it's", "µ", "m.v", `q"q`, "x,y", "k=v"}
 
+// lookalikePool: field / tag names whose text is a literal of another type (duration, integer, float,
+// boolean, regex, star, reference, lambda). TICKscript writes names as string literals, so any text is a
+// legal name (load averages are commonly stored as fields 1m, 5m, 15m); the JSON and TICKscript forms of
+// a pipeline carry the type of a value in its position or syntax, and a name must come back as a name.
+var lookalikePool = []string{"1m", "5m", "15m", "1h", "10s", "500ms", "2w", "1µs", "0s", "10", "-1", "1.5", "1e3", "TRUE", "FALSE", "true", "null", "/re/", "*", `"ref"`, "lambda: TRUE"}
+
 func (s *sg) argName() {
 	if s.pick(6, "nameVar") == 0 && s.useVar("str") {
+		return
+	}
+	if s.pick(5, "nameLookalike") == 0 {
+		v := rapid.SampledFrom(lookalikePool).Draw(s.t, "lookalike")
+		s.o.label("arg:name-looks-like-literal")
+		s.o.strLit(v, s.pick(6, "nameTQ") == 0)
 		return
 	}
 	v := rapid.SampledFrom(namePool).Draw(s.t, "name")
@@ -396,12 +408,8 @@ func (s *sg) call(name, kinds string) {
 // families J2 and T2). The generator does not write them for that law and counts each avoided draw.
 var unsupported = map[string]map[string]string{
 	"json": {
-		"|elapsed":     "J8 pipeline JSON: InfluxQL function nodes with parameters (percentile, top/bottom, movingAverage, elapsed, holtWinters) are read back with zero parameters in their reducers (only the args list is restored)",
 		"|holtWinters": "J11 pipeline JSON: MarshalJSON replaces the duration arguments of the live elapsed/holtWinters node by strings (marshalling changes the pipeline)", "|holtWintersWithFit": "J11 pipeline JSON: MarshalJSON replaces the duration arguments of the live elapsed/holtWinters node by strings (marshalling changes the pipeline)",
 		"~child-of-shadowing-node": "J10 pipeline JSON: children of combine / k8sAutoscale cannot be read back (a struct field named like a chain method, Max/Min, makes the node fail the chain-node interface check)",
-		"|percentile":              "J8 pipeline JSON: InfluxQL function nodes with parameters (percentile, top/bottom, movingAverage, elapsed, holtWinters) are read back with zero parameters in their reducers (only the args list is restored)", "|movingAverage": "J8 pipeline JSON: InfluxQL function nodes with parameters (percentile, top/bottom, movingAverage, elapsed, holtWinters) are read back with zero parameters in their reducers (only the args list is restored)",
-		"|top":           "J8 pipeline JSON: InfluxQL function nodes with parameters (percentile, top/bottom, movingAverage, elapsed, holtWinters) are read back with zero parameters in their reducers (only the args list is restored)",
-		"|bottom":        "J8 pipeline JSON: InfluxQL function nodes with parameters (percentile, top/bottom, movingAverage, elapsed, holtWinters) are read back with zero parameters in their reducers (only the args list is restored)",
 		"~any-int":       "J7 pipeline JSON: an integer value of an untyped property (default/sideload field, fill, handler attribute) is read back as a float",
 		"|barrier":       "J6 pipeline JSON: node kind unknown to Unmarshal: barrier",
 		"|trickle":       "J6 pipeline JSON: node kind unknown to Unmarshal: trickle",
@@ -423,6 +431,9 @@ var unsupported = map[string]map[string]string{
 }
 
 const (
+	// J8 is not avoided by the generator: the nodes are generated for the json law as well and compared
+	// under the argsOnly view (fp_test.go nodeProps), see pipelineJSONLaw.
+	classJ8 = "J8 pipeline JSON: InfluxQL function nodes with parameters (percentile, top/bottom, movingAverage, elapsed, holtWinters) are read back with zero parameters in their reducers (only the args list is restored)"
 	classK9 = "K9 dbrp statement whose database or retention policy name contains a double quote (printed unescaped)"
 	classJ2 = "J2 pipeline JSON does not carry the property: "
 	classT2 = "T2 pipeline/tick does not render the property: "
